@@ -82,14 +82,18 @@ func (m *ledgerModel) memView(k byte) (uint32, bool) {
 	return v, ok
 }
 
+// nLedgers real instances are fed the same operations (their commits must agree: a node-local influence
+// such as map iteration order shows as different root hashes with probability growing with the count).
+const nLedgers = 3
+
 type ledgerPair struct {
-	dirs [2]string
-	l    [2]*ledger.FinalityLedger[*kvItem]
+	dirs [nLedgers]string
+	l    [nLedgers]*ledger.FinalityLedger[*kvItem]
 }
 
-func openLedgerPair(dirs [2]string) (*ledgerPair, error) {
+func openLedgerPair(dirs [nLedgers]string) (*ledgerPair, error) {
 	p := &ledgerPair{dirs: dirs}
-	for i := 0; i < 2; i++ {
+	for i := 0; i < nLedgers; i++ {
 		l, xerr := ledger.NewFinalityLedger[*kvItem]("kv", dirs[i], 16, func() *kvItem { return &kvItem{} })
 		if xerr != nil {
 			return nil, xerr
@@ -100,7 +104,7 @@ func openLedgerPair(dirs [2]string) (*ledgerPair, error) {
 }
 
 func (p *ledgerPair) close() {
-	for i := 0; i < 2; i++ {
+	for i := 0; i < nLedgers; i++ {
 		if p.l[i] != nil {
 			_ = p.l[i].Close()
 		}
@@ -134,6 +138,12 @@ func ledgerNext(t *rapid.T, m *ledgerModel, nKeys int, lastOp *LOp) LOp {
 			}
 		}
 		return ks
+	}
+	// removals come in bursts now and then (several keys leaving the tree in one commit)
+	if lastOp != nil && lastOp.Op == "delf" && pct(t, 45, "delBurst") {
+		if ks := visibleCons(); len(ks) > 0 {
+			return LOp{Op: "delf", K: pick(t, ks, "delBurstKey")}
+		}
 	}
 	for {
 		switch weighted(t, map[string]int{"setf": 16, "getf": 14, "delf": 10, "set": 8, "get": 8, "del": 5, "read": 6, "iterall": 3, "iterupd": 3,
@@ -192,7 +202,7 @@ func applyLedgerOp(p **ledgerPair, m *ledgerModel, op LOp, feats map[string]bool
 	wasFresh := func(k byte) bool { _, had := m.cons[k]; return !had }
 	fresh := map[byte]bool{}
 	defer func() { m.consFresh = fresh }()
-	for i := 0; i < 2; i++ {
+	for i := 0; i < nLedgers; i++ {
 		l := (*p).l[i]
 		switch op.Op {
 		case "setf":
@@ -301,6 +311,24 @@ func applyLedgerOp(p **ledgerPair, m *ledgerModel, op LOp, feats map[string]bool
 		if x0 != nil || x1 != nil {
 			return fmt.Errorf("Commit: %v %v", x0, x1)
 		}
+		for i := 2; i < nLedgers; i++ {
+			hi, vi, xi := (*p).l[i].Commit()
+			if xi != nil {
+				return fmt.Errorf("Commit: %v", xi)
+			}
+			if vi != v0 || !bytes.Equal(hi, h0) {
+				return fmt.Errorf("ledgers fed the same operations commit different versions/root hashes: %d/%x vs %d/%x", v0, h0, vi, hi)
+			}
+		}
+		removed := 0
+		for _, pv := range m.cons {
+			if pv == nil {
+				removed++
+			}
+		}
+		if removed >= 2 && len(m.latest()) >= 5 {
+			feats["commit_removing_2+_keys_of_5+"] = true
+		}
 		next := map[byte]uint32{}
 		for k, v := range m.latest() {
 			next[k] = v
@@ -332,7 +360,7 @@ func applyLedgerOp(p **ledgerPair, m *ledgerModel, op LOp, feats map[string]bool
 		}
 		*p = np
 		m.cons, m.mem = map[byte]*uint32{}, map[byte]*uint32{}
-		for i := 0; i < 2; i++ {
+		for i := 0; i < nLedgers; i++ {
 			if v := np.l[i].Version(); v != int64(len(m.committed)-1) {
 				return fmt.Errorf("after reopen the ledger is at version %d, last commit was %d", v, len(m.committed)-1)
 			}
@@ -411,10 +439,12 @@ func TestC18(t *testing.T) {
 	st := newStats("C18")
 	defer st.write()
 	run := func(next func(m *ledgerModel, last *LOp) *LOp) (ops []LOp, feats map[string]bool, err error) {
-		d0, d1 := newDataDir(), newDataDir()
-		defer os.RemoveAll(d0)
-		defer os.RemoveAll(d1)
-		p, err := openLedgerPair([2]string{d0, d1})
+		var dirs [nLedgers]string
+		for i := range dirs {
+			dirs[i] = newDataDir()
+			defer os.RemoveAll(dirs[i])
+		}
+		p, err := openLedgerPair(dirs)
 		if err != nil {
 			return nil, nil, err
 		}
@@ -481,9 +511,27 @@ func TestC18(t *testing.T) {
 	}
 	rapid.Check(t, func(rt *rapid.T) {
 		nKeys := 1 + unif(rt, 8, "nKeys")
+		if pct(rt, 35, "manyKeys") {
+			nKeys = 9 + unif(rt, 8, "nKeysMany")
+		}
 		n := 5 + unif(rt, 56, "nOps")
+		// optional preamble: a populated tree (ordinary operations, recorded like the others)
+		var forced []LOp
+		if pct(rt, 45, "prefill") {
+			for k := 0; k < nKeys; k++ {
+				if pct(rt, 80, "prefillKey") {
+					forced = append(forced, LOp{Op: "setf", K: byte(k), V: uint32(1 + unif(rt, 1000, "prefillVal"))})
+				}
+			}
+			forced = append(forced, LOp{Op: "commit"})
+		}
 		cnt := 0
 		ops, feats, err := run(func(m *ledgerModel, last *LOp) *LOp {
+			if len(forced) > 0 {
+				op := forced[0]
+				forced = forced[1:]
+				return &op
+			}
 			if cnt >= n {
 				return nil
 			}
